@@ -165,11 +165,18 @@ pub fn race_prog(s: &mut Src) -> Program {
 
 pub fn build(draws: &[u16], tier: Tier) -> Case {
     let mut s = Src::new(draws);
-    let (family, prog) = match s.pick(8) {
+    let (family, prog) = match s.pick(9) {
         0 | 1 | 2 | 3 => ("atomic-sync", race_prog(&mut s)),
         4 => ("lock-handover", gen::lock_handover(&mut s)),
         5 => ("wait-handover", gen::wait_shape(&mut s)),
         6 => ("chan-handover", gen::chan_handover(&mut s)),
+        8 => (
+            "sync+probes",
+            gen::sync_prog(
+                &mut s,
+                &gen::SyncParams { mutex: true, channel: true, notify: true, park: true, unpark_any: true, probes: true, ordered_locks: true, max_threads: 3, max_ops: 8, joins: true, ..Default::default() },
+            ),
+        ),
         _ => (
             "sync-random",
             gen::sync_prog(
